@@ -149,6 +149,18 @@ def forbidden_vernacular():
     return hits
 
 
+def run_coqchk(pid, timeout=3000):
+    """Independent re-check of props/<pid>.vo and everything it depends on; returns (ok, summary)."""
+    with Lock(os.path.join(COQ, ".lock")):
+        rc, out = run(["coqchk", "-silent", "-o", "-Q", "theories", "CDI", "-Q", "gen", "CDIGen", "-Q", "props", "CDIProps",
+                       "CDIProps." + pid], cwd=COQ, timeout=timeout)
+    m = re.search(r"CONTEXT SUMMARY.*", out, re.S)
+    summary = re.sub(r"\s+", " ", m.group(0)) if m else out[-800:]
+    ok = rc == 0 and "Axioms: <none>" in summary and "type-in-type: <none>" in summary and \
+        "unsafe (co)fixpoints: <none>" in summary and "positivity is assumed: <none>" in summary
+    return ok, summary
+
+
 def failing_obligation(out):
     m = re.search(r'File "([^"]+)", line (\d+), characters [\d-]+:\s*\n\s*Error:\s*((?:.*\n?){1,12})', out)
     if m:
@@ -326,6 +338,12 @@ def check(pid, conf, tier, seed, workdir, replay, t0):
     bad_axioms = [a for a in axioms if a not in allowed]
     if proof_ok and (closed + (1 if axioms else 0) < 1 or bad_axioms):
         proof_ok = False
+    coqchk_summary = None
+    if proof_ok and tier == "thorough" and not replay:
+        ck_ok, coqchk_summary = run_coqchk(pid)
+        if not ck_ok:
+            proof_ok = False
+            notes.append("coqchk does not confirm the development axiom-free: " + coqchk_summary[:600])
     discharged = n_print if proof_ok else 0
     log("[%s] theorems: ok=%s obligations=%d closed=%d axioms=%s (%.1fs)" % (pid, proof_ok, n_print, closed, axioms, time.time() - t0))
 
@@ -434,6 +452,7 @@ def check(pid, conf, tier, seed, workdir, replay, t0):
         "axioms_reported_by_Print_Assumptions": axioms,
         "theorems_closed_under_global_context": closed,
         "forbidden_vernacular_found": forbidden,
+        "coqchk_summary": coqchk_summary,
         "evaluations": meta.get("evaluations", 0),
         "distinct_nontrivial": meta.get("distinct_nontrivial", 0),
         "distinct_inputs": meta.get("distinct", 0),
